@@ -834,10 +834,14 @@ class Saver:
     def _raise_failed_futures(futures):
         """Raise the exception of a finished (chunk writing) future that failed, return the list of
         futures that are still running."""
+        still_running = []
         for f in futures:
+            # Look at each future once: one that finishes after this is kept for the next look
             if f.done():
                 f.result()
-        return [f for f in futures if not f.done()]
+            else:
+                still_running.append(f)
+        return still_running
 
     def close(self, wait_for: typing.Union[list, tuple] = tuple()):
         if self.closed:
